@@ -153,7 +153,7 @@ pub fn enumerate_value(value: &ValueSpec, stats: &mut Stats, mut f: impl FnMut(&
         f(plan, out);
     };
     let reader_deliveries = [Delivery::Reader, Delivery::BufReader(7), Delivery::EscapedReader];
-    let is_list = matches!(value, ValueSpec::VersionList(_) | ValueSpec::RangeList(_));
+    let is_list = value.shape() != Shape::One;
     let knob_sets: Vec<Knobs> = {
         let mut k = vec![
             Knobs::default(),
@@ -493,39 +493,46 @@ fn shrink_value_candidates(v: &ValueSpec) -> Vec<ValueSpec> {
         }
     }
     match v {
-        ValueSpec::Version(s) => out.extend(vsrc_c(s).into_iter().map(ValueSpec::Version)),
-        ValueSpec::Range(s) => out.extend(rsrc_c(s).into_iter().map(ValueSpec::Range)),
-        ValueSpec::VersionList(l) => {
-            for s in l {
-                out.push(ValueSpec::Version(s.clone()));
+        ValueSpec::Versions { shape, items } => {
+            // simpler document first
+            if *shape != Shape::One {
+                for s in items {
+                    out.push(ValueSpec::version(s.clone()));
+                }
             }
-            for i in 0..l.len() {
-                let mut n = l.clone();
-                n.remove(i);
-                out.push(ValueSpec::VersionList(n));
+            if !shape.single() {
+                for i in 0..items.len() {
+                    let mut n = items.clone();
+                    n.remove(i);
+                    out.push(ValueSpec::Versions { shape: *shape, items: n });
+                }
             }
-            for i in 0..l.len() {
-                for c in vsrc_c(&l[i]) {
-                    let mut n = l.clone();
+            for i in 0..items.len() {
+                for c in vsrc_c(&items[i]) {
+                    let mut n = items.clone();
                     n[i] = c;
-                    out.push(ValueSpec::VersionList(n));
+                    out.push(ValueSpec::Versions { shape: *shape, items: n });
                 }
             }
         }
-        ValueSpec::RangeList(l) => {
-            for s in l {
-                out.push(ValueSpec::Range(s.clone()));
+        ValueSpec::Ranges { shape, items } => {
+            if *shape != Shape::One {
+                for s in items {
+                    out.push(ValueSpec::range(s.clone()));
+                }
             }
-            for i in 0..l.len() {
-                let mut n = l.clone();
-                n.remove(i);
-                out.push(ValueSpec::RangeList(n));
+            if !shape.single() {
+                for i in 0..items.len() {
+                    let mut n = items.clone();
+                    n.remove(i);
+                    out.push(ValueSpec::Ranges { shape: *shape, items: n });
+                }
             }
-            for i in 0..l.len() {
-                for c in rsrc_c(&l[i]) {
-                    let mut n = l.clone();
+            for i in 0..items.len() {
+                for c in rsrc_c(&items[i]) {
+                    let mut n = items.clone();
                     n[i] = c;
-                    out.push(ValueSpec::RangeList(n));
+                    out.push(ValueSpec::Ranges { shape: *shape, items: n });
                 }
             }
         }
@@ -671,18 +678,27 @@ pub fn corpus_values(prop: Prop, extra_generated: usize, base: u64) -> Vec<Value
     let mut v: Vec<ValueSpec> = match prop {
         Prop::C12 => {
             let c = gen::version_corpus();
-            let mut v: Vec<ValueSpec> = c.iter().cloned().map(ValueSpec::Version).collect();
-            v.push(ValueSpec::VersionList(vec![]));
-            v.push(ValueSpec::VersionList(c[..3].to_vec()));
-            v.push(ValueSpec::VersionList(vec![c[22].clone(), c[10].clone(), c[24].clone(), c[1].clone()]));
+            let mut v: Vec<ValueSpec> = c.iter().cloned().map(ValueSpec::version).collect();
+            let vs = |shape, items: Vec<VSrc>| ValueSpec::Versions { shape, items };
+            v.push(vs(Shape::Many, vec![]));
+            v.push(vs(Shape::Many, c[..3].to_vec()));
+            v.push(vs(Shape::Many, vec![c[22].clone(), c[10].clone(), c[24].clone(), c[1].clone()]));
+            v.push(vs(Shape::Entry, vec![c[22].clone()]));
+            v.push(vs(Shape::Tagged, vec![c[11].clone()]));
+            v.push(vs(Shape::Keyed, vec![c[1].clone(), c[22].clone(), c[8].clone()]));
+            v.push(vs(Shape::Keyed, vec![]));
             v
         }
         Prop::C13 => {
             let c = gen::range_corpus();
-            let mut v: Vec<ValueSpec> = c.iter().cloned().map(ValueSpec::Range).collect();
-            v.push(ValueSpec::RangeList(vec![]));
-            v.push(ValueSpec::RangeList(c[..3].to_vec()));
-            v.push(ValueSpec::RangeList(vec![c[56].clone(), c[8].clone(), c[49].clone()]));
+            let mut v: Vec<ValueSpec> = c.iter().cloned().map(ValueSpec::range).collect();
+            let rs = |shape, items: Vec<RSrc>| ValueSpec::Ranges { shape, items };
+            v.push(rs(Shape::Many, vec![]));
+            v.push(rs(Shape::Many, c[..3].to_vec()));
+            v.push(rs(Shape::Many, vec![c[56].clone(), c[8].clone(), c[49].clone()]));
+            v.push(rs(Shape::Entry, vec![c[49].clone()]));
+            v.push(rs(Shape::Tagged, vec![c[56].clone()]));
+            v.push(rs(Shape::Keyed, vec![c[7].clone(), c[54].clone()]));
             v
         }
     };
